@@ -34,7 +34,7 @@ func init() {
 			"R3: the record<->proto codec reads and writes every field of kvs.Record. R4: the key prefix added by the mapping has the length its inverse strips; ListKeys maps the pattern and un-maps results. " +
 			"R5: one PutMany is written by a single strategy (one MSET, or record by record front to back), never both. " +
 			"R6: every SET/SETNX gets the TTL computed from the ExpiresAt of the record being written (what is stored is what was given). " +
-			"R7: every stored record gets a fresh version (C02.R2).",
+			"R7: every stored record gets a fresh version (C02.R2). R8: the in-memory ListKeys compiles the glob without separators (as redis MATCH has none). In R1 every ErrConflict/ErrNotExist return of CasByVersion sits on its deciding edge (no class is returned from anywhere else).",
 		NotDecided: "equality of results for all operation sequences. Known value-level divergences outside these rules: redis strips leading '/' from keys, turns an empty value into nil, GetMany() with no keys is a server error.",
 	})
 	register(&Check{
@@ -114,6 +114,18 @@ func (c *Ctx) inmemClassEdges(r *inmemRoles, r1, r2 string) {
 			return cm.Op == token.NEQ && ir.LoadedField(cm.X) == r.recVersion && ir.LoadedField(cm.Y) == r.recVersion
 		})
 	})
+	// a class is returned only on its deciding edge
+	{
+		fn := r.storage["CasByVersion"]
+		for _, ret := range ir.Returns(fn) {
+			if sentinel(ir.ResultValue(ret, 1)) == "ErrConflict" {
+				ok := hasFactCmp(ret.Block(), func(cm ir.Cmp) bool {
+					return cm.Op == token.NEQ && ir.LoadedField(cm.X) == r.recVersion && ir.LoadedField(cm.Y) == r.recVersion
+				}) && presence(ret.Block(), true)
+				c.Decide(r1, fn, "ErrConflict only for a present record with another version", ret, ok, "CasByVersion reports ErrConflict on a path where no stored record was compared: for a missing key the contract says ErrNotExist")
+			}
+		}
+	}
 	// no success on those edges: a CAS success exit is dominated by version equality
 	{
 		fn := r.storage["CasByVersion"]
@@ -185,6 +197,7 @@ func runC03(c *Ctx) {
 	c.redisCodec(rd, "C03.R3", "C03.R4")
 	c.R.Floor("C03.R3", 9)
 	c.redisOneStrategy(rd, "C03.R5")
+	c.inmemGlobPlain(im, "C03.R8")
 	c.redisTTL(rd, "C03.R6", "", "")
 	c.inmemFreshVersions(im, "C03.R7")
 	c.redisFreshVersions(rd, "C03.R7")
@@ -194,6 +207,7 @@ func runC03(c *Ctx) {
 func runC06(c *Ctx) {
 	im := resolveInmemRoles(c)
 	rd := resolveRedisRoles(c)
+	c.inmemCriticalSections(im, "C06.R6")
 	c.inmemExpiry(im, "C06.R1")
 	c.inmemBoundedPark(im, "C06.R2")
 	c.redisTTL(rd, "C06.R3", "C06.R4", "C06.R5")
@@ -205,6 +219,8 @@ func runC07(c *Ctx) {
 	c.inmemNotifyAfterMutate(im, "C07.W1")
 	c.inmemWaitRules(im, "C07.W2", "C07.W3", "C07.W4", "C07.W5", "C07.W6")
 	c.redisWaitResults(rd, "C07.W5")
+	c.inmemBoundedPark(im, "C07.W7")
+	c.redisPollBounded(rd, "C07.W8")
 	c.R.Floor("C07.W2", 3)
 	c.R.Floor("C07.W3", 2)
 	c.R.Floor("C07.W4", 5)
